@@ -43,12 +43,19 @@ var extras = map[string]ruleFn{
 		furtherRules(c, r, "C09.E3", "optional-cleared", "required-error")
 		writerRules(c, r, "C09.E3")
 	},
+	// "only components whose declared qualifier is in the requested set": qualifier texts are compared exactly
+	// "a unique component without a custom name wins": which components count as custom-named
+	"C08": func(c *core.Ctx, r *core.Report) {
+		tagRules(c, r, "C08.R5", "has-values", "lookup")
+		aliasTable(c, r, "C08.R6")
+	},
 	// the ordering helper is a function of the multiset of participants (not of their enumeration order)
 	"C10": func(c *core.Ctx, r *core.Report) { sorterRules(c, r, "C10.R6") },
 	// "receives ... the tag's value and arguments"; every processor sees every property
 	"C11": func(c *core.Ctx, r *core.Report) {
 		tagRules(c, r, "C11.R7", "value", "arguments")
 		propsStageRules(c, r, "C11.R8")
+		propertyStoreRules(c, r, "C11.R9")
 	},
 	// "every registered runner is invoked": the runner collection is complete
 	"C13": func(c *core.Ctx, r *core.Report) {
@@ -58,8 +65,14 @@ var extras = map[string]ruleFn{
 	"C14": func(c *core.Ctx, r *core.Report) {
 		collectionRules(c, r, "C14.R7", findLifecycle(c, r, "C14.R7"))
 	},
-	// "the others in the order they were added": the ordering helper keeps unordered participants in place
-	"C15": func(c *core.Ctx, r *core.Report) { sorterRules(c, r, "C15.R9") },
+	// "the others in the order they were added": the ordering helper keeps unordered participants in place;
+	// what was merged or set last is what lookups see
+	"C15": func(c *core.Ctx, r *core.Report) {
+		sorterRules(c, r, "C15.R9")
+		binderRules(c, r, "C15.R10")
+	},
+	// "replaced by the configured value when one is present": lookups see the configuration as it is now
+	"C16": func(c *core.Ctx, r *core.Report) { binderRules(c, r, "C16.R8") },
 	// "the field receives the expression's result": binding writes a fresh value
 	"C18": func(c *core.Ctx, r *core.Report) {
 		setValueRules(c, r, "C18.R5")
